@@ -33,9 +33,37 @@ PROGRAMS = {
                 lambda i: [b'EXPUNGE'], lambda i: []),
     'STATUS': (lambda i: [], lambda i: [b'STATUS INBOX (UIDNEXT MESSAGES)'],
                lambda i: []),
+    # CHECK cleans the UID list up (drops records whose file is gone)
+    'CHECK': (lambda i: [b'SELECT INBOX'], lambda i: [b'CHECK'],
+              lambda i: []),
+    # the other side of a move: a session scanning the *source* mailbox
+    'NOOP-a': (lambda i: [b'SELECT a'], lambda i: [b'NOOP'], lambda i: []),
+    'CHECK-a': (lambda i: [b'SELECT a'], lambda i: [b'CHECK'], lambda i: []),
+    # both processes move the same message into the mailbox they have
+    # selected (same file, same key, new UID)
+    'MOVE-self': (lambda i: [b'SELECT INBOX'], lambda i: [b'MOVE 1 INBOX'],
+                  lambda i: []),
+    # out of INBOX and (second command) back again
+    'MOVE-out-back': (lambda i: [b'SELECT INBOX'],
+                      lambda i: [b'MOVE %d a' % (i + 1), b'SELECT a',
+                                 b'MOVE * INBOX'],
+                      lambda i: []),
+    # a maildir folder made by another program: no dovecot-uidlist yet
+    'APPEND-raw': (lambda i: [], lambda i: [b'APPEND raw ' +
+                                            mt.lit(mt.body('r%d' % i))],
+                   lambda i: [('raw', 'r%d' % i)]),
+    'SELECT-raw': (lambda i: [], lambda i: [b'SELECT raw'], lambda i: []),
 }
 ORDER = ['APPEND', 'SELECT', 'COPY', 'MOVE', 'EXPUNGE', 'NOOP',
          'APPEND-unselected', 'STATUS']
+# further pairs (not the full product)
+EXTRA_PAIRS = [('APPEND', 'CHECK'), ('COPY', 'CHECK'), ('MOVE', 'CHECK'),
+               ('CHECK', 'CHECK'), ('MOVE', 'NOOP-a'), ('MOVE', 'CHECK-a'),
+               ('MOVE-self', 'MOVE-self'), ('MOVE-self', 'NOOP'),
+               ('MOVE-self', 'SELECT'), ('MOVE-out-back', 'NOOP'),
+               ('MOVE-out-back', 'SELECT'), ('MOVE-out-back', 'CHECK'),
+               ('APPEND-raw', 'APPEND-raw'), ('APPEND-raw', 'SELECT-raw'),
+               ('SELECT-raw', 'SELECT-raw')]
 
 
 def pairs(names):
@@ -95,6 +123,11 @@ def judge(layout, names, deliver, ex, info):
     inbox = dict(final['INBOX'][2]) if final.get('INBOX') else {}
     for i, res in enumerate(info['results']):
         want = PROGRAMS[names[i]][2](i)
+        box = 'INBOX'
+        if want and isinstance(want[0], tuple):
+            box = want[0][0]
+            want = [t for _, t in want]
+            inbox = dict(final[box][2]) if final.get(box) else {}
         for line, r, rs in res:
             if r.name != 'OK':
                 continue
@@ -116,7 +149,7 @@ def judge(layout, names, deliver, ex, info):
                 if inbox.get(u) != t:
                     v('reported-uid-wrong',
                       f'process {i} was told UID {u} for {t}; UID FETCH '
-                      f'finds {inbox.get(u)}; INBOX {sorted(inbox.items())}')
+                      f'finds {inbox.get(u)}; {box} {sorted(inbox.items())}')
     return out
 
 
